@@ -245,14 +245,33 @@ class Cluster:
             while t <= new + beyond:
                 ev.append(("pull", k, t))
                 t += step
+            if cfg.get("back_requests") and self.last[k] is not None and self.last[k] - step >= 0 and not getattr(self, "went_back", {}).get(k) == self.last[k]:
+                ev.append(("pull_back", k, self.last[k] - step))
         return ev
 
     def apply(self, ev):
         World.cur = self
         if ev[0] == "push":
             self.push(ev[1])
+        elif ev[0] == "pull_back":
+            self.pull_back(ev[1], Fr(ev[2]))
         else:
             self.pull(ev[1], Fr(ev[2]))
+
+    def pull_back(self, k, t):
+        """history only: a request that goes back behind the consumer's previous one. Such sequences are outside the statements (requests
+        are non-decreasing); if the slot REFUSES it, nothing may have changed (the search goes on from here with the reference untouched),
+        if it serves it, the path has left the domain and is dropped"""
+        self.cur_pull = (k, t)
+        try:
+            self.inps[k].pull_data(T0 + H(t))
+            self.dead = True
+        except (E.FinamTimeError, E.FinamNoDataError):
+            pass
+        except Exception:  # noqa
+            self.dead = True
+        finally:
+            self.cur_pull = None
 
     def key(self):
         # Info._time (the declared start time of a slot) is only read while connecting; Output._time always equals the newest retained entry: neither is part of the post-connect state.
@@ -284,6 +303,9 @@ def explore(cfg, max_depth=None, max_states=200000, max_seconds=None):
             if ev[0] == "pull" and len(c2.out.data) < n0:
                 res["stats"]["evictions"] += 1
             p2 = path + [[ev[0]] + [float(x) if isinstance(x, Fr) else x for x in ev[1:]]]
+            if getattr(c2, "dead", False):
+                res["stats"]["paths_left_domain"] += 1
+                continue
             for clause, fp, what in c2.viol:
                 res["violations"].append((clause, fp, what, p2))
             if c2.viol:
